@@ -6,8 +6,11 @@
    both stores, as in headerfs).
 
    The model is that of the REPAIRED code: processBatch hands source INDICES
-   to ReadBatch (finding F08 fixed) and the first header of the file is validated
-   against its parent in the target store (finding F09 fixed).
+   to ReadBatch (finding F08 fixed), the first header of the file is validated
+   against its parent in the target store (finding F09 fixed), and with the
+   block store ahead of the filter store the file is linked to the block
+   header at the EFFECTIVE tip and every filter-only batch carries the hash
+   of the block header at its last height (finding F27 fixed).
 
    Positions in the import file ([index]) and block heights ([height]) are
    distinct wrapper types; every conversion is explicit ([ix_of_height],
@@ -374,19 +377,22 @@ Definition connection (s : stores) (b : bsource) (th prevh : height) : bool :=
   | _, _ => false
   end.
 
-(* validateChainContinuity *)
+(* validateChainContinuity.  REPAIR of F27: the header above the effective
+   tip is linked to the block header AT the effective tip (the unrepaired code
+   handed the block tip height to validateHeaderConnection, which rejected
+   every file reaching above the filter tip when the block store is ahead). *)
 Definition continuity (s : stores) (b : bsource) (f : fsource) : bool :=
   match b_chaintip s, f_chaintip s with
   | Some (_, Ht bt), Some (_, Ht ft) =>
     let eff := Z.min bt ft in
     let st := hz (b_start b) in let en := hz (b_end b) in
     if st >? eff + 1 then false
-    else if st >? eff then connection s b (Ht st) (Ht bt)
+    else if st >? eff then connection s b (Ht st) (Ht eff)
     else
       let oe := Z.min eff en in
       verify_at s b f (Ht st) VBoth &&
       (if oe >? st then verify_at s b f (Ht oe) VBoth else true) &&
-      (if oe <? en then connection s b (Ht (oe + 1)) (Ht bt) else true)
+      (if oe <? en then connection s b (Ht (oe + 1)) (Ht eff) else true)
   | _, _ => false
   end.
 
@@ -471,20 +477,17 @@ Definition process_batch (fl : faults) (c : ctr) (s : stores) (b : bsource) (f :
       let bend := match m with
                   | ABlock => hz batch_start + Z.of_nat (length bb) - 1
                   | _ => hz batch_start + Z.of_nat (length fb) - 1 end in
-      (* isLastBatch := batchEnd >= filterIter.GetEndIndex(): the code still
-         compares a HEIGHT with an INDEX here (only used in filter-only mode) *)
-      let is_last := bend >=? iz endI in
-      (* filter-only mode, last batch: tie the filter tip to the block tip *)
+      (* filter-only mode: tie the filter tip to the block header at the
+         batch's last height (REPAIR of F27: the unrepaired code did this only
+         for the batch it took for the last one, comparing a HEIGHT with an
+         INDEX, and demanded that the block tip be at that height) *)
       let fb1 :=
         match m with
         | AFilter =>
-          if is_last then
-            match b_chaintip s with
-            | None => None
-            | Some (lastH, Ht t) =>
-              if t =? fe_height (lastd fb (FE 0 0 0)) then Some (set_last_blk fb (hid lastH)) else None
-            end
-          else Some fb
+          match b_fetch s (Ht bend) with
+          | Some lastH => Some (set_last_blk fb (hid lastH))
+          | None => None
+          end
         | ABoth =>
           if Nat.eqb (length bb) (length fb)
           then Some (set_last_blk fb (hid (fst (lastd bb (H 0 0 0 0 0, 0)))))
